@@ -36,13 +36,14 @@ ASSUMPTIONS = ["the documented default environment = HOME, LOGNAME, PATH, SHELL,
 
 INHERIT = ["HOME", "LOGNAME", "PATH", "SHELL", "TERM", "USER"]
 
-ARG_POOL = ["plain", "with space", "", "quo\"te", "sin'gle", "--flag=value", "ünï\U0001f600", "back\\slash", "$HOME", "a;b|c&d",
+ARG_POOL = [" leading", "trailing ", " ", "\t", "  both  ", "line\nbreak ", "plain", "with space", "", "quo\"te", "sin'gle", "--flag=value", "ünï\U0001f600", "back\\slash", "$HOME", "a;b|c&d",
             "*", "new\nline", "-", "--", "tab\there", "%s", "{json:1}"]
 ENV_POOL = [None, {}, {"FOO": "bar"}, {"PATH": "/usr/bin:/bin", "X_Y": "ü \U0001f600", "EMPTY": ""},
             {"LOG_LEVEL": "ERROR", "A": "1"}, {"HOME": "/nonexistent", "TERM": "dumb", "Z": "z z"},
             {"BRAVE_API_KEY": "sk-123 456", "GITHUB_TOKEN": "ghp_\u00fc", "DB_PASSWORD": "p@ss=w:rd", "client_secret": "s3cr3t"},
             {"Key": "k", "token": "t", "MY_SECRET_VALUE": "", "PASSWORD": "********", "NOT_SENSITIVE": "plain"},
-            {"PYTHONPATH": "/x:/y", "LD_LIBRARY_PATH": "/lib", "LANG": "C.UTF-8", "1NUM": "n", "lower_case": "v"}]
+            {"PYTHONPATH": "/x:/y", "LD_LIBRARY_PATH": "/lib", "LANG": "C.UTF-8", "1NUM": "n", "lower_case": "v"},
+            {"PADDED": "  value with edges  ", "TABBED": "\tv\t", "ONLY_SPACE": " ", "TRAILING_NL": "v\n"}]
 TIMEOUTS = ["__absent__", 5, 2.5, "7", "3.5", None]
 
 
@@ -67,6 +68,10 @@ def gen_configs(ctx):
     out.append({"servers": {"only": {"args": [], "env": None, "timeout": "__absent__", "extra": None}}, "top_extra": None})
     out.append({"servers": {"a": {"args": ARG_POOL[:8], "env": ENV_POOL[3], "timeout": 5, "extra": None},
                             "b": {"args": ARG_POOL[8:], "env": {}, "timeout": "7", "extra": None}}, "top_extra": None})
+    # whitespace at the edges of arguments and environment values is part of them
+    out.append({"servers": {"padded": {"args": [" leading", "trailing ", " ", "\t", "  both  "],
+                                       "env": {"PADDED": "  value with edges  ", "ONLY_SPACE": " "}, "timeout": 5, "extra": None}},
+                "top_extra": None})
     # names that differ only by case / by a normalisation a lookup might apply: each is its own server
     out.append({"servers": {"reports": {"args": ["lower"], "env": {"WHICH": "lower"}, "timeout": 3, "extra": None},
                             "Reports": {"args": ["Capital"], "env": {"WHICH": "capital"}, "timeout": 4, "extra": None},
